@@ -147,3 +147,67 @@ Theorem C03_recurring_job_among_others_enumerates :
     (keeps_up P xs -> enumerates P (clock t0 pre) (map Ok (map snd xs ++ [c']))).
 Proof. exact disturbed_keepup_enumerates. Qed.
 Print Assumptions C03_recurring_job_among_others_enumerates.
+
+(* ---- the FULLY GENERATED stack (GenSystem*.v): a history machine in which every API operation is executed by generated code only (builder, store, job classes, controls, scheduler; in GenSystem2 also the producers) ---- *)
+
+
+(* ---- THE WHOLE STACK, GENERATED, END TO END (theories/GenSystem2.v): the generated history machine of GenSystem.v
+   (builder, job classes, scheduler: generated) run in the environment whose trigger of the recurring job is the
+   producer expression p EXECUTED BY THE GENERATED PRODUCER CODE (GenSunEq.pknot_sun: every producer class generated),
+   its q-th query starting from the producer state the generated code left after the queries at [firstn q qs].
+   Hand-written between the pieces: see the heads of GenSystem.v and GenSystem2.v (event-loop firing rule, initial
+   state, vocabulary of histories, argument conversion, threading of the producer state, zone table and astral as
+   oracles). *)
+From EAS Require SchedEqst GenRtSun GenSunEq GenSystem GenSystem2 SchedProj3 SchedProj4 SchedProj6.
+(* any well-formed producer expression (sun, offset, earliest, latest, jitter, groups included) *)
+Theorem C03_generated_system_follows_reference_loop :
+  forall PE W n p E0, GenSunEq.world_ok W -> wf_producer p -> (GenSunEq.srank p <= n)%nat ->
+  forall qs f hs t0 key ops a1 xs k' t' c',
+    let E := GenSystem2.gen_trigger_env PE W n p E0 O qs in
+    prod E O O t0 = Ok a1 ->
+    ideal (prod E O) 1 t0 a1 ops = Some (xs, (k', t', c')) ->
+    exists g, GenSystem.gen_run E (S (S (S (S f)))) hs (init t0 true) (OAt key :: ops)
+                = (g, repeat GenSystem.GDone (S (length ops))) /\
+              J g c' k' /\ now g = t' /\ Compose2.execs O (log g) = xs.
+Proof. exact GenSystem2.gen_system_single_job_exact. Qed.
+Print Assumptions C03_generated_system_follows_reference_loop.
+(* time-of-day / interval-with-start / groups of those: the closed C03 statement *)
+Theorem C03_generated_system_enumerates :
+  forall PE W n p E0, GenSunEq.world_ok W -> wf_producer p -> (GenSunEq.srank p <= n)%nat ->
+  forall G qs f hs t0 key ops a1 xs k' t' c',
+    wf_tz_b (pz PE) = true -> consistent G -> tig p -> incl (leaves p) G ->
+    let E := GenSystem2.gen_trigger_env PE W n p E0 O qs in
+    prod E O O t0 = Ok a1 ->
+    ideal (prod E O) 1 t0 a1 ops = Some (xs, (k', t', c')) ->
+    exists g,
+      GenSystem.gen_run E (S (S (S (S f)))) hs (init t0 true) (OAt key :: ops) = (g, repeat GenSystem.GDone (S (length ops))) /\
+      J g c' k' /\ now g = t' /\ Compose2.execs O (log g) = xs /\
+      StronglySorted Z.lt (map fst xs) /\
+      Forall (fun x => t0 <= fst x <= t' /\ snd x <= fst x /\ fst x < c') xs /\
+      Forall2 (fun x v => earliest_after (occ (pz PE) p) (fst x) v) xs (tl (map snd xs ++ [c'])) /\
+      (keeps_up (occ (pz PE) p) xs -> enumerates (occ (pz PE) p) t0 (map Ok (map snd xs ++ [c']))).
+Proof. exact GenSystem2.gen_system_enumerates. Qed.
+Print Assumptions C03_generated_system_enumerates.
+(* the recurring job with the generated trigger among k other jobs and typed operations on them *)
+Theorem C03_generated_system_among_others :
+  forall PE W n p E0, GenSunEq.world_ok W -> wf_producer p -> (GenSunEq.srank p <= n)%nat ->
+  forall G k qs fuel hs t0 en key pre ops a1 xs k' t' c',
+    wf_tz_b (pz PE) = true -> consistent G -> tig p -> incl (leaves p) G ->
+    let E := GenSystem2.gen_trigger_env PE W n p E0 k qs in
+    let h := pre ++ OAt key :: ops in
+    GenSystem.ops_wt E fuel hs (init t0 en) h ->
+    ~ In NoFuel (snd (run E fuel hs (init t0 en) h)) -> ~ In (Raised EKeyError) (snd (run E fuel hs (init t0 en) h)) ->
+    SchedProj4.hist_ok true h = true ->
+    SchedProj6.ncre pre = k -> forallb (fun o => negb (SchedProj3.addresses k o)) pre = true ->
+    SchedProj6.enf en pre = true -> forallb (SchedProj6.foreign k) ops = true ->
+    prod E k 0 (SchedProj6.clock t0 pre) = Ok a1 ->
+    ideal (prod E k) 1 (SchedProj6.clock t0 pre) a1 (filter quiet ops) = Some (xs, (k', t', c')) ->
+    let g := fst (GenSystem.gen_run E fuel hs (init t0 en) h) in
+    snd (GenSystem.gen_run E fuel hs (init t0 en) h) = map GenSystem.oc_of (snd (run E fuel hs (init t0 en) h)) /\
+    Compose2.execs k (log g) = xs /\ jstatus (jobs g k) = Running /\ jnext (jobs g k) = Some c' /\ now g = t' /\
+    StronglySorted Z.lt (map fst xs) /\
+    Forall (fun x => SchedProj6.clock t0 pre <= fst x <= t' /\ snd x <= fst x /\ fst x < c') xs /\
+    Forall2 (fun x v => earliest_after (occ (pz PE) p) (fst x) v) xs (tl (map snd xs ++ [c'])) /\
+    (keeps_up (occ (pz PE) p) xs -> enumerates (occ (pz PE) p) (SchedProj6.clock t0 pre) (map Ok (map snd xs ++ [c']))).
+Proof. exact GenSystem2.gen_system_disturbed. Qed.
+Print Assumptions C03_generated_system_among_others.
